@@ -65,6 +65,9 @@ func gen(g *mon.Gen) {
 	}
 	for i := 0; i < g.Pick(150, 10000); i++ {
 		g.Emit(&Case{Kind: "stream", Mode: []string{"dev", "typed-error", "generic-error"}[i%3], Seed: rng.Int63(), N: 2 + rng.Intn(6)})
+		if i < g.Pick(2, 12) {
+			g.Emit(&Case{Kind: "stalled-reader", Mode: "dev", Seed: rng.Int63()})
+		}
 	}
 }
 
@@ -322,7 +325,65 @@ func run(ci any, r *mon.Rec) {
 		runSeq(c, r, rng)
 	case "stream":
 		runStream(c, r, rng)
+	case "stalled-reader":
+		runStalled(c, r, rng)
 	}
+}
+
+// runStalled: a client takes the first two bytes of a reply and then stops reading for longer than the server's write
+// timeout. The write times out half way: that reply is torn. Whatever the server does next, it must not put further
+// replies behind the torn one on the same connection - the stream would no longer be a sequence of well-formed ADUs.
+func runStalled(c *Case, r *mon.Rec, rng *rand.Rand) {
+	dev := simdev.New(uint64(c.Seed), "srv")
+	l := srvx.NewMemListener()
+	s := &server.Server{OnErrorFunc: func(error) {}, WriteTimeout: 150 * time.Millisecond}
+	ctx, cancel := context.WithCancel(context.Background())
+	served := make(chan error, 1)
+	go func() { served <- s.Serve(ctx, l, srvx.DevHandler(dev, nil)) }()
+	defer func() {
+		sctx, sc := context.WithTimeout(context.Background(), 3*time.Second)
+		_ = s.Shutdown(sctx)
+		sc()
+		cancel()
+		select {
+		case <-served:
+		case <-time.After(3 * time.Second):
+		}
+	}()
+	cli, _, err := l.Dial(2 * time.Second)
+	if err != nil {
+		r.Inconclusive("stalled-reader: cannot connect: " + err.Error())
+		return
+	}
+	defer cli.Close()
+	r.Eval(1)
+	q1 := specref.Req{FC: 3, Unit: 1 + libx.U8(rng)%200, TID: 0x2211, Addr: libx.U16(rng) % 60000, Qty: uint16(10 + rng.Intn(100))}
+	want1 := simdev.New(uint64(c.Seed), "srv").Handle(q1).Encode(specref.TCP)
+	_ = cli.SetWriteDeadline(time.Now().Add(2 * time.Second))
+	if _, err := cli.Write(q1.Encode(specref.TCP)); err != nil {
+		r.Inconclusive("stalled-reader: write: " + err.Error())
+		return
+	}
+	head2, _ := srvx.ReadN(cli, 2, 2*time.Second)
+	if len(head2) != 2 {
+		r.Violate(c, "no-reply", mon.Attrs{"where": "stalled-reader"}, "no reply bytes at all")
+		return
+	}
+	time.Sleep(500 * time.Millisecond) // the server's write (150 ms) gives up meanwhile
+	// the client comes back: it sends its next request and reads whatever the connection still delivers
+	q2 := specref.Req{FC: 3, Unit: q1.Unit, TID: 0x2212, Addr: 7, Qty: 3}
+	_ = cli.SetWriteDeadline(time.Now().Add(300 * time.Millisecond))
+	_, _ = cli.Write(q2.Encode(specref.TCP))
+	rest := srvx.Drain(cli, 600*time.Millisecond)
+	all := append(append([]byte{}, head2...), rest...)
+	r.Distinct(mon.Mix(0x57a11, uint64(c.Seed)))
+	r.Cover("stalled-reader", fmt.Sprintf("bytes-after-the-stall=%v", len(rest) > 0))
+	// acceptable: the torn reply and nothing else (connection closed), or - had the write not timed out - the complete stream
+	want2 := simdev.New(uint64(c.Seed), "srv").Handle(q2).Encode(specref.TCP)
+	if bytes.HasPrefix(want1, all) || bytes.Equal(all, append(append([]byte{}, want1...), want2...)) {
+		return
+	}
+	r.Violate(c, "reply-after-torn-reply", mon.Attrs{"where": "stalled-reader"}, fmt.Sprintf("the client read 2 bytes of a %d-byte reply, stalled 500 ms (write timeout 150 ms) and came back: the connection then delivered % x - not a prefix of the first reply and not the two complete replies", len(want1), head(all)))
 }
 
 // runStream: k frames that each call for exactly one reply, concatenated and cut at PRNG positions (next request sent
@@ -349,7 +410,11 @@ func runStream(c *Case, r *mon.Rec, rng *rand.Rand) {
 	garbage := ""
 	if rng.Intn(2) == 0 {
 		g := specref.Frame(specref.TCP, uint16(rng.Intn(65536)), libx.U8(rng), []byte{3, 0, 1, 0, 1})
-		switch garbage = []string{"protocol-id", "mbap-length", "function-0"}[rng.Intn(3)]; garbage {
+		switch garbage = []string{"protocol-id", "mbap-length", "function-0", "huge-length"}[rng.Intn(4)]; garbage {
+		case "huge-length":
+			// a header that announces 65 531..65 535 more bytes (never 65 530: a server that mis-sizes that one loops for
+			// ever): an incomplete frame - the server waits for the rest and sends nothing for it
+			g[4], g[5] = 0xFF, byte(0xFB+rng.Intn(5))
 		case "protocol-id":
 			g[2+rng.Intn(2)] = byte(1 + rng.Intn(255))
 		case "mbap-length":
@@ -399,7 +464,7 @@ func runStream(c *Case, r *mon.Rec, rng *rand.Rand) {
 		checkReply(c, r, f, out[:n], want, "stream")
 		out = out[n:]
 	}
-	if len(out) > 0 && garbage == "" {
+	if len(out) > 0 && (garbage == "" || garbage == "huge-length") {
 		r.Violate(c, "surplus-reply-bytes", mon.Attrs{"where": "stream"}, fmt.Sprintf("% x", head(out)))
 	}
 }
